@@ -15,6 +15,12 @@ RebuildSem(f) ==
                              THEN [keep[i] EXCEPT !.vals = DerivedVals(keep[i].cells), !.strict = FALSE]
                              ELSE keep[i]]]
 
+IORes(ok, miss, unspec) ==
+  [ok |-> ok, miss |-> miss, unspec |-> unspec, newf |-> <<>>, newd |-> <<>>, newg |-> <<>>, newgd |-> <<>>, newvd |-> <<>>]
+
 JudgeIO(e, Fr, Gr) ==
-  [ok |-> TRUE, miss |-> TRUE, unspec |-> FALSE, newf |-> <<>>, newd |-> <<>>, newg |-> <<>>, newgd |-> <<>>]
+  LET R == Fr[e.recv + 1] IN
+  CASE e.op \in {"ToCSV", "ToJSON"} -> IORes((e.err = 1) = R.err, FALSE, FALSE)
+    [] e.op = "String" -> IORes(TRUE, FALSE, FALSE)
+    [] OTHER -> IORes(TRUE, TRUE, FALSE)
 =============================================================================
